@@ -3,7 +3,7 @@ from . import tree
 
 FOCUS = tree.VIEW_CLAUSES | {"accepted_but_must_reject"}
 QUICK = {"names": ["A", "B"], "objs": 3, "nvals": 1, "kids": 2, "held": 1, "state_fraction": 0.02, "extra_paths": 1, "walks": {"names": ["A", "B", "C"], "objs": 6, "kids": 4, "held": 2, "num": 140, "depth": 40}}
-THOROUGH = {"names": ["A", "B"], "objs": 3, "nvals": 1, "kids": 2, "held": 1, "state_fraction": 0.08, "extra_paths": 1, "walks": {"names": ["A", "B", "C"], "objs": 6, "kids": 4, "held": 2, "num": 1500, "depth": 60}}
+THOROUGH = {"names": ["A", "B"], "objs": 3, "nvals": 1, "kids": 2, "held": 1, "state_fraction": 0.06, "extra_paths": 1, "walks": {"names": ["A", "B", "C"], "objs": 6, "kids": 4, "held": 2, "num": 500, "depth": 50}}
 
 
 def run(ctx):
